@@ -1,4 +1,4 @@
-PROPS = ["CTV.Props.C05"]
+PROPS = ["CTV.Props.C05", "CTV.Props.C05Tie"]
 HARNESS = [dict(pkg="./ctutil/", test="TestVerifC05", timeout=900)]
 EXHAUSTIVE = True
 RULE = ("tls.VerifySignature on the full 256x256 grid of (hash, signature) codes for one genuine P-256 signature (exhaustive); the same grid for an RSA-2048 and the DSA key "
